@@ -38,6 +38,45 @@ fn random_def(r: &mut Rng) -> String {
     }
 }
 
+/// register files of every layout, the items in every order (a name may be the beginning of another name that
+/// comes earlier or later in the file)
+pub fn register_cases(g: &mut Gen, nreg: usize) {
+    let items = [("one", "addone"), ("two", "addone | addone inv"), ("one_more", "noop"), ("zz", "helmert x=1\n| addone")];
+    for _ in 0..nreg {
+        let eol = *g.rng.pick(&["\n", "\r\n", "\r"]);
+        let mut text = String::new();
+        if g.rng.chance(1, 2) {
+            text += &format!("# A register{eol}{eol}Some text.{eol}");
+        }
+        let k = 1 + g.rng.below(items.len());
+        let mut order: Vec<usize> = (0..items.len()).collect();
+        for i in (1..order.len()).rev() {
+            let j = g.rng.below(i + 1);
+            order.swap(i, j);
+        }
+        let mut present = vec![];
+        for (i, at) in order.iter().take(k).enumerate() {
+            let (name, body) = items[*at];
+            text += &format!("```geodesy:{name}{eol}{}{eol}", body.replace('\n', eol));
+            let last = i + 1 == k;
+            if !(last && g.rng.chance(1, 3)) {
+                text += &format!("```{eol}");
+                if g.rng.chance(1, 2) {
+                    text += &format!("{eol}More prose, and an unrelated fence:{eol}```sh{eol}ls{eol}```{eol}");
+                }
+            }
+            present.push(name);
+        }
+        let ask = *g.rng.pick(&["one", "two", "one_more", "zz", "on", "three", "one_", "", "one", "z"]);
+        g.push(format!("REG\t{}\t{}", crate::wire::escape(&text), crate::wire::escape(ask)), "register", true);
+        g.push(
+            format!("S_C18R\t{}\t{}\t{}", crate::wire::escape(&text), crate::wire::escape(ask), if present.contains(&ask) { 1 } else { 0 }),
+            "oracle-register",
+            true,
+        );
+    }
+}
+
 pub fn generate(g: &mut Gen, thorough: bool) {
     let n = if thorough { 12000 } else { 1200 };
     let data = super::probe_data(2);
@@ -82,36 +121,10 @@ pub fn generate(g: &mut Gen, thorough: bool) {
         let set = super::c02::mixed_set(g, 50);
         g.push(format!("S_C18T\t{}\t{}", crate::wire::escape(def), crate::wire::data_of(&set)), "oracle-threads", true);
     }
-    // register files of every layout
-    let items = [("one", "addone"), ("two", "addone | addone inv"), ("one_more", "noop"), ("zz", "helmert x=1\n| addone")];
-    let nreg = if thorough { 3000 } else { 400 };
-    for _ in 0..nreg {
-        let eol = *g.rng.pick(&["\n", "\r\n", "\r"]);
-        let mut text = String::new();
-        if g.rng.chance(1, 2) {
-            text += &format!("# A register{eol}{eol}Some text.{eol}");
-        }
-        let k = 1 + g.rng.below(items.len());
-        let mut present = vec![];
-        for (i, (name, body)) in items.iter().take(k).enumerate() {
-            text += &format!("```geodesy:{name}{eol}{}{eol}", body.replace('\n', eol));
-            let last = i + 1 == k;
-            if !(last && g.rng.chance(1, 3)) {
-                text += &format!("```{eol}");
-                if g.rng.chance(1, 2) {
-                    text += &format!("{eol}More prose, and an unrelated fence:{eol}```sh{eol}ls{eol}```{eol}");
-                }
-            }
-            present.push(*name);
-        }
-        let ask = *g.rng.pick(&["one", "two", "one_more", "zz", "on", "three", "one_", ""]);
-        g.push(format!("REG\t{}\t{}", crate::wire::escape(&text), crate::wire::escape(ask)), "register", true);
-        g.push(
-            format!("S_C18R\t{}\t{}\t{}", crate::wire::escape(&text), crate::wire::escape(ask), if present.contains(&ask) { 1 } else { 0 }),
-            "oracle-register",
-            true,
-        );
-    }
+    register_cases(g, if thorough { 3000 } else { 400 });
+    // the grids behind the operators are shared by every context of the process: what they deliver for a point
+    // does not depend on the points they served before (NTv2 hierarchies, children reaching the parent's border)
+    super::grid::ntv2_cases(g, if thorough { 1500 } else { 150 }, 3);
     // a macro found in a file, used, then registered at run time under the same name: the registration wins
     // from then on (also for a macro that refers to it), the handles made before keep their behaviour
     for kind in ["plain", "plain-new"] {
